@@ -668,7 +668,7 @@ class Terms:
             if k == "deref":
                 continue
             if k == "field":
-                t = mk_field(t, e.get("name", e["i"]), e["i"])
+                t = mk_field(t, e.get("name", str(e["i"])), e["i"])
             elif k == "downcast":
                 t = mk_variant(t, e.get("name", e["v"]))
             elif k == "index":
@@ -735,7 +735,7 @@ class Terms:
             if not real:
                 return val
             prev = self.local(l, bb, pos if pos != "term" else len(body.blocks[bb]["stmts"]))
-            return ("update", prev, tuple(e.get("name", e.get("i", e["k"])) for e in real), val)
+            return ("update", prev, tuple(e.get("name", str(e.get("i", e["k"]))) for e in real), val)
         return val
 
     def call_term(self, t, bb):
@@ -781,7 +781,7 @@ class Terms:
             a = rv.get("agg")
             if a == "adt":
                 names = rv.get("fnames") or []
-                return ("agg", rv["adt"], rv["variant"], tuple((names[i] if i < len(names) else i, f) for i, f in enumerate(fields)))
+                return ("agg", rv["adt"], rv["variant"], tuple((names[i] if i < len(names) else str(i), f) for i, f in enumerate(fields)))
             if a == "tuple":
                 return ("tuple", fields)
             if a == "array":
@@ -836,9 +836,10 @@ def mk_phi(terms):
 
 def mk_field(t, name, idx):
     # projection through a known aggregate
+    name = str(name) if isinstance(name, int) else name
     if t[0] == "agg":
         for n, v in t[3]:
-            if n == name:
+            if str(n) == name:
                 return v
         if isinstance(idx, int) and idx < len(t[3]):
             return t[3][idx][1]
@@ -849,7 +850,7 @@ def mk_field(t, name, idx):
         a = t[1]
         if a[2] == t[2]:
             for n, v in a[3]:
-                if n == name:
+                if str(n) == name:
                     return v
             if isinstance(idx, int) and idx < len(a[3]):
                 return a[3][idx][1]
@@ -945,7 +946,7 @@ def deep_strip(t):
     if h in ("arg", "const", "item", "fn", "undef", "loop", "unknown", "noreturn", "setdiscr"):
         return t
     if h == "field":
-        return strip_try(mk_field(deep_strip(t[1]), t[2], t[2] if isinstance(t[2], int) else None))
+        return strip_try(mk_field(deep_strip(t[1]), t[2], int(t[2]) if str(t[2]).isdigit() else None))
     if h == "variant":
         return ("variant", deep_strip(t[1]), t[2])
     if h == "index":
@@ -1484,3 +1485,298 @@ def agg_payload(t):
     if t and t[0] == "agg" and t[3]:
         return t[3][0][1]
     return None
+
+
+# --------------------------------------------------------------------------
+# control-flow helpers used by path rules
+# --------------------------------------------------------------------------
+
+
+def switches(body, tm=None):
+    """all switch terminators (non-cleanup) with their stripped discriminant term:
+    yields (bb, term, names, raw_terminator)"""
+    tm = tm or Terms(body)
+    out = []
+    for bb, blk in enumerate(body.blocks):
+        if blk["cleanup"]:
+            continue
+        t = blk["term"]
+        if t["k"] != "switch":
+            continue
+        d, names = switch_discr_info(body, bb)
+        dt = tm.operand(d, bb)
+        out.append((bb, dt, names, t))
+    return out
+
+
+def switch_target(t, names, label):
+    """successor block of a switch for a variant name / integer value / 'otherwise'"""
+    if label == "otherwise":
+        return t["otherwise"]
+    for v, tgt in t["targets"]:
+        if v == label or (names is not None and names.get(v) == label):
+            return tgt
+    # a variant not listed explicitly goes to otherwise
+    return t["otherwise"]
+
+
+def bool_targets(t):
+    """(false_target, true_target) of a bool switch"""
+    f = None
+    for v, tgt in t["targets"]:
+        if v == 0:
+            f = tgt
+    return f, t["otherwise"]
+
+
+def must_pass_edge(body, head_bb, edge, guarded_bb):
+    """every path from head_bb (taking at least one edge) to guarded_bb uses `edge`"""
+    r = body.reach_from_succs(head_bb, removed_edges=[edge])
+    return guarded_bb not in r
+
+
+def region_value(body, edge, local=0, stop_blocks=()):
+    """term of `local` at every return block reachable after taking `edge` (a,b):
+    only paths that enter the region through that edge are considered; paths through
+    `stop_blocks` (e.g. a loop head) are not followed"""
+    a, b = edge
+    region = body.reachable(start=b, removed_blocks=stop_blocks)
+
+    def ok(x, y):
+        if (x, y) == (a, b):
+            return True
+        if y in region and x not in region:
+            return False
+        return True
+
+    tm = Terms(body, edge_ok=ok)
+    out = []
+    for rb in body.return_blocks():
+        if rb in region:
+            out.append((rb, tm.local(local, rb, len(body.blocks[rb]["stmts"]))))
+    return out
+
+
+def is_err_value(t):
+    """term is an Err-shaped Result: from_residual(..) of a Break payload, or an aggregate Err"""
+    t0 = t
+    if t0[0] == "call" and t0[1].endswith("::from_residual"):
+        return True
+    if result_variant(t0) == "Err":
+        return True
+    if t0[0] == "phi":
+        return all(is_err_value(x) for x in t0[1])
+    return False
+
+
+def try_propagation(body, cs, tm=None):
+    """How the Result returned by call site `cs` is consumed.
+    Returns dict(kind=..., detail=...): kind in
+      'propagated'  – `?` (Try::branch + from_residual) or match with `return Err(..)`: the Err arm
+                      reaches a return whose value is Err-shaped and derives from this call
+      'returned'    – the call result is itself (part of) the function's return value
+      'other'       – anything else (discarded, unwrapped, mapped to a default, ...)"""
+    tm = tm or Terms(body)
+    ct = tm.call_term(cs.term, cs.bb)
+    key = ct
+    for bb, dt, names, t in switches(body, tm):
+        if dt[0] != "discr":
+            continue
+        inner = dt[1]
+        is_branch = inner[0] == "call" and inner[1].endswith("::branch") and len(inner[2]) == 1 and inner[2][0] == key
+        direct = inner == key
+        if not (is_branch or direct):
+            continue
+        label = "Break" if is_branch else "Err"
+        if names is None or label not in names.values():
+            continue
+        tgt = switch_target(t, names, label)
+        vals = region_value(body, (bb, tgt))
+        if not vals:
+            return {"kind": "other", "detail": "Err arm does not reach a return"}
+        # the Err arm must not re-enter normal processing: every reachable return is Err-shaped
+        bad = [short(v) for _, v in vals if not is_err_value(v)]
+        if bad:
+            return {"kind": "other", "detail": "Err arm reaches a non-Err return: %s" % bad[:2]}
+        return {"kind": "propagated", "detail": "Err arm bb%d -> return" % tgt, "switch": bb, "err_target": tgt, "ok_target": switch_target(t, names, "Continue" if is_branch else "Ok")}
+    rt = tm.return_term()
+    if contains(rt, lambda s: s == key):
+        return {"kind": "returned", "detail": "flows into the return value"}
+    return {"kind": "other", "detail": "result not propagated with `?`/match-return"}
+
+
+def innermost_loop(body, bb):
+    best = None
+    for h, blocks in body.natural_loops():
+        if bb in blocks and (best is None or len(blocks) < len(best[1])):
+            best = (h, blocks)
+    return best
+
+
+def outermost_loop(body, bb):
+    best = None
+    for h, blocks in body.natural_loops():
+        if bb in blocks and (best is None or len(blocks) > len(best[1])):
+            best = (h, blocks)
+    return best
+
+
+def loop_exit_edges(body, blocks):
+    out = []
+    for a in sorted(blocks):
+        for s in body.succ[a]:
+            if s not in blocks and body.blocks[s]["term"]["k"] != "unreachable":
+                out.append((a, s))
+    return out
+
+
+class Row:
+    __slots__ = ("path", "sel", "facts", "bools", "ret", "end")
+
+
+def table(body, max_paths=20000):
+    """decision table of a loop-free function: one Row per acyclic path"""
+    rows = []
+    for p in enumerate_paths(body, max_paths=max_paths):
+        if p.end == "unreachable":
+            continue
+        r = Row()
+        r.path = p
+        r.sel = {}
+        r.bools = []
+        for dt, label, bb in p.conds:
+            if dt[0] == "discr":
+                r.sel[nosite(deep_strip(dt[1]))] = label
+            else:
+                r.bools.append((nosite(deep_strip(dt)), label))
+        r.facts = path_facts(p)
+        r.end = p.end
+        r.ret = nosite(deep_strip(path_return_term(body, p))) if p.end == "return" else None
+        rows.append(r)
+    return rows
+
+
+def sel_is(row, base, variant):
+    """row selects `variant` for discriminant of `base` (handles 'otherwise' groups)"""
+    v = row.sel.get(base)
+    if v is None:
+        return False
+    if isinstance(v, tuple):
+        return variant in v[1]
+    return v == variant
+
+
+def increment_of(body, bb, pos, l):
+    """if statement (bb,pos) is `l = l + c` (possibly via a checked-add temporary) return c"""
+    s = body.blocks[bb]["stmts"][pos]
+    if s["k"] != "assign" or s["place"]["l"] != l or s["place"]["p"]:
+        return None
+    rv = s["rv"]
+
+    def is_l(op):
+        return op["k"] in ("copy", "move") and op["place"]["l"] == l and not op["place"]["p"]
+
+    def addc(rv):
+        if rv["k"] == "bin" and rv["op"] in ("Add", "AddWithOverflow", "AddUnchecked"):
+            a, b = rv["a"], rv["b"]
+            if is_l(a) and b["k"] == "const" and "int" in b:
+                return b["int"]
+            if is_l(b) and a["k"] == "const" and "int" in a:
+                return a["int"]
+        return None
+
+    c = addc(rv)
+    if c is not None:
+        return c
+    if rv["k"] == "use" and rv["op"]["k"] in ("copy", "move"):
+        pl = rv["op"]["place"]
+        t = pl["l"]
+        if len(pl["p"]) == 1 and pl["p"][0]["k"] == "field" and pl["p"][0]["i"] == 0 or not pl["p"]:
+            ds = body.defs.get(t, [])
+            if len(ds) == 1 and ds[0][1] != "term" and not ds[0][2]:
+                return addc(body.blocks[ds[0][0]]["stmts"][ds[0][1]]["rv"])
+    return None
+
+
+# --------------------------------------------------------------------------
+# universally quantified loops:  for x in coll { if !p(x) { return false } } return true
+# --------------------------------------------------------------------------
+
+_TRUNCATING = re.compile(r"Iterator::(take|skip|filter|step_by|take_while|skip_while|filter_map|peekable|map_while|nth|last|find)$|slice::.*::(first|last|split_first|split_last|chunks|windows)$")
+
+
+def truthy(t, want):
+    """term is the boolean constant `want`, possibly wrapped in Ok(..)"""
+    if result_variant(t) == "Ok":
+        t = agg_payload(t)
+    return t == ("const", "bool", want)
+
+
+def forall_loop(body, inner_pred, tm=None):
+    """Analyse a function of the shape above.  `inner_pred(callsite)` selects the per-element test.
+    Returns dict with keys: ok(bool), problems(list of str), inner(CallSite), next(CallSite), collection(term)"""
+    tm = tm or Terms(body)
+    problems = []
+    inners = [c for c in body.calls() if inner_pred(c)]
+    if len(inners) != 1:
+        return {"ok": False, "problems": ["expected exactly one per-element test, found %d" % len(inners)]}
+    inner = inners[0]
+    loop = innermost_loop(body, inner.bb)
+    if loop is None:
+        return {"ok": False, "problems": ["per-element test is not inside a loop"], "inner": inner}
+    h, blocks = loop
+    nexts = [c for c in body.calls() if c.func.get("method") == "next" and c.bb in blocks and innermost_loop(body, c.bb) == loop]
+    if len(nexts) != 1:
+        return {"ok": False, "problems": ["expected one Iterator::next in the loop, found %d" % len(nexts)], "inner": inner}
+    nx = nexts[0]
+    recv = deep_strip(tm.operand(nx.args[0], nx.bb))
+    trunc = [c[1] for c in calls_in(recv) if _TRUNCATING.search(c[1])]
+    if trunc:
+        problems.append("the iterated collection is truncated/filtered: %s" % trunc)
+    nxt = tm.call_term(nx.term, nx.bb)
+    # the element under test derives from the iterator's item
+    it = deep_strip(tm.call_term(inner.term, inner.bb))
+    if not contains(it, lambda s: s == deep_strip(nxt)):
+        problems.append("the per-element test is not applied to the loop element")
+    # exhaustion edge
+    ex_edge = None
+    for bb, dt, names, t in switches(body, tm):
+        if bb in blocks and dt == ("discr", nxt) and names:
+            ex_edge = (bb, switch_target(t, names, "None"))
+    if ex_edge is None:
+        problems.append("no exhaustion exit (iterator None arm) found")
+    else:
+        vals = region_value(body, ex_edge)
+        if not vals or not all(truthy(deep_strip(v), True) for _, v in vals):
+            problems.append("after the loop is exhausted the function does not return true: %s" % [short(v) for _, v in vals][:2])
+    # the switch on the per-element verdict
+    verdict = strip_try(deep_strip(tm.call_term(inner.term, inner.bb)))
+    sw = None
+    for bb, dt, names, t in switches(body, tm):
+        d = deep_strip(dt)
+        neg = False
+        if d[0] == "un" and d[1] == "Not":
+            d, neg = d[2], True
+        if bb in blocks and nosite(d) == nosite(verdict):
+            f, tr = bool_targets(t)
+            if neg:
+                f, tr = tr, f
+            sw = (bb, f, tr)
+    if sw is None:
+        problems.append("the verdict of the per-element test is not branched on")
+    else:
+        bb, f, tr = sw
+        vals = region_value(body, (bb, f), stop_blocks=[nx.bb])
+        if not vals:
+            problems.append("a failed element does not end the loop with `false` (verdict ignored or accumulated)")
+        elif not all(truthy(deep_strip(v), False) for _, v in vals):
+            problems.append("a failed element does not make the function return false: %s" % [short(v) for _, v in vals][:2])
+        cont_t = body.reachable(start=tr, removed_blocks=[nx.bb])
+        if any(r in cont_t for r in body.return_blocks()):
+            problems.append("a passing element can end the loop early (returns before all elements are tested)")
+    # Err of the per-element test is propagated when it returns a Result
+    pr = try_propagation(body, inner, tm)
+    dest_ty = body.locals[inner.dest["l"]]["ty"]
+    if "Result<" in dest_ty and pr["kind"] != "propagated":
+        problems.append("Err of the per-element test is not propagated: %s" % pr["detail"])
+    return {"ok": not problems, "problems": problems, "inner": inner, "next": nx, "collection": recv}
